@@ -253,6 +253,7 @@ class FakeOS:
 
     def execvpe(self, file, args, env):
         s, t, p = ctx()
+        _sysfail(s, p, "execvpe")        # e.g. ENOENT: the binary was moved or removed under the running server
         prog = s.programs.get(file)
         if prog is None:
             raise FileNotFoundError(errno.ENOENT, "no simulated program registered for %r" % (file,))
@@ -1050,6 +1051,11 @@ class SimFuture:
         self._result = None
         self._exc = None
         self._cbs = []
+        self._notified = False       # CANCELLED_AND_NOTIFIED: a pool thread has taken the cancelled item off the queue
+
+    def _waitable_done(self):
+        # concurrent.futures.wait() only counts FINISHED and CANCELLED_AND_NOTIFIED futures as done (done() also says True for CANCELLED)
+        return self.state == "finished" or (self.state == "cancelled" and self._notified)
 
     def cancel(self):
         if self.state in ("running", "finished"):
@@ -1151,6 +1157,7 @@ class SimExecutor:
                 continue
             f, fn, args, kwargs = self.queue.popleft()
             if f.state == "cancelled":
+                f._notified = True
                 continue
             f.state = "running"
             try:
@@ -1191,7 +1198,7 @@ class FakeFutures:
     def wait(self, fs, timeout=None, return_when="ALL_COMPLETED"):
         s, t, p = ctx()
         fs = list(fs)
-        done = [f for f in fs if f.done()]
+        done = [f for f in fs if f._waitable_done()]
         if return_when == "FIRST_COMPLETED" and done:
             s.tick()
             return DoneAndNotDone(set(done), set(fs) - set(done))
@@ -1199,11 +1206,11 @@ class FakeFutures:
             s.tick()
             return DoneAndNotDone(set(done), set())
         if return_when == "FIRST_COMPLETED":
-            pred = lambda: any(f.done() for f in fs)
+            pred = lambda: any(f._waitable_done() for f in fs)
         else:
-            pred = lambda: all(f.done() for f in fs)
+            pred = lambda: all(f._waitable_done() for f in fs)
         s.block(pred, timeout, False, False)
-        done = [f for f in fs if f.done()]
+        done = [f for f in fs if f._waitable_done()]
         s.tick()
         return DoneAndNotDone(set(done), set(fs) - set(done))
 
